@@ -27,7 +27,7 @@ func TestC20(t *testing.T) {
 		"backups go into fresh directories only",
 		"debug.SetPanicOnFault(true) is set on the goroutine that calls the engine")
 	defer finishProperty(st)
-	rapid.Check(t, func(t *rapid.T) {
+	checkCases(t, st, func(t *rapid.T) {
 		runHistoryCase(t, "C20", c20Profile, func(r *kvh.Runner) bool {
 			return r.F.Backups > 0 && (r.F.Rotations > 0 || r.F.Batches > 0) && r.F.WritesAfterBackup > 0
 		})
